@@ -290,6 +290,13 @@ func (it *c11Interp) exec(fr *c11Frame, st *c11St, s ast.Stmt) []c11Out {
 	case *ast.RangeStmt:
 		return it.execRange(fr, st, x)
 	}
+	if d, ok := s.(*ast.DeferStmt); ok {
+		if st.defers == nil {
+			st.defers = map[string][]*ast.CallExpr{}
+		}
+		st.defers[fr.path] = append(st.defers[fr.path], d.Call)
+		return c11Norm([]*c11St{st})
+	}
 	st.note("unsupported statement")
 	return c11Norm([]*c11St{st})
 }
@@ -498,6 +505,9 @@ func (it *c11Interp) assign(fr *c11Frame, st *c11St, lhs ast.Expr, v *c11V) {
 		it.store(fr, st, &c11V{k: "index", xs: []*c11V{b, i}}, v, lhs)
 	case *ast.StarExpr:
 		p := first(x.X)
+		if it.writeRef(fr, st, p, v) {
+			return
+		}
 		if b := c11StripPtr(p); p.k == "addr" && b.k == "struct" && st.heap[b.id] != nil && v.k == "struct" && st.heap[v.id] != nil {
 			st.heap[b.id] = st.heap[v.id].clone()
 			return
@@ -722,6 +732,17 @@ func (it *c11Interp) havoc(fr *c11Frame, st *c11St, loop ast.Node) {
 		if cur, ok := st.env[v]; ok {
 			pre[v] = cur
 			st.env[v] = c11LoopSym(loop, fr.path, v)
+		}
+	}
+	// variables written through pointers to locals (`*dst = append(*dst, u)`)
+	for _, p := range it.refTargets(fr, st, loop) {
+		if env := it.envOf(fr, st, p.name); env != nil {
+			if cur, ok := env[p.obj]; ok {
+				if _, done := pre[p.obj]; !done {
+					pre[p.obj] = cur
+					env[p.obj] = c11LoopSym(loop, fr.path, p.obj)
+				}
+			}
 		}
 	}
 	// function values called in the loop: the variables their literals assign (in the frame that created
@@ -998,7 +1019,7 @@ func (it *c11Interp) callInline(fr *c11Frame, st *c11St, fi *FuncInfo, recv *c11
 	}
 	st.env = env
 	var out []c11Out
-	for _, o := range it.execList(nf, st, fi.Decl.Body.List) {
+	for _, o := range it.runDefers(nf, it.execList(nf, st, fi.Decl.Body.List)) {
 		switch o.ctl {
 		case c11Normal:
 			o.res = it.namedResults(nf, o.st)
@@ -1060,7 +1081,7 @@ func (it *c11Interp) run(fi *FuncInfo, bind map[types.Object]*c11V) ([]c11Out, *
 			}
 		}
 	}
-	outs := it.execList(fr, st, fi.Decl.Body.List)
+	outs := it.runDefers(fr, it.execList(fr, st, fi.Decl.Body.List))
 	for i := range outs {
 		if outs[i].ctl == c11Normal {
 			outs[i].ctl = c11Return
